@@ -328,7 +328,7 @@ def _evolve_checked(cx, fam, spec, ttno, h, lab, q, t, method, tau, normalize, t
     psi0 = L.dense_ttns(t)
     c0 = complex(t.coeff)
     rep = lambda **kw: cx.replay(fam, spec, state0, _hist_json(hist), dict(failing_step=len(hist) - 1, **kw))
-    if time.time() - cx.t0 > (150.0 if cx.quick else 1200.0):
+    if time.time() - cx.t0 > (150.0 if cx.quick else 900.0):
         run.count("abandoned:hard-deadline")          # the family loop checks its budget only between cases
         return None
     try:
